@@ -46,7 +46,7 @@ RULE = ('case = (world rt) 1-3 events in flight over the 6 routes of a 4-node to
         'stream (every single cut, byte-at-a-time, every-n, cuts around the delimiter and the 4096-byte read boundaries, all pairs '
         'of cuts in thorough) + every sequence of 2-3 sends on one server->client connection, each a notification (Server.send '
         'no_result=True | send_to | send_all) or an awaited call, x peer handler behaviour per event (return / raise / delayed '
-        'generator, distinct results) x {all sends in one burst, each send after the previous packet was written} x 2-4 segmentations '
+        'generator / handing on with `return self.fire(..)`, distinct results) x {all sends in one burst, each send after the previous packet was written} x 2-4 segmentations '
         '| (world h) one hostile packet from a grammar (truncation at every offset, non-object JSON, missing/'
         'extra keys, wrong JSON type per key, a string as the notify flag naming a local event (with and without a logging receive firewall), sizes up to 1 MiB, nesting, bad UTF-8, every single metadata key and every pair from '
         'dir(Event()) + the attributes the dispatcher reads) against a victim under the real run() with an honest second peer | '
@@ -336,6 +336,15 @@ class Tree:
         self.root.addHandler(handler('tell')(tell))
         self.root.addHandler(handler('seq')(seq))
         self.root.addHandler(handler('sentinel')(sentinel))
+
+        def inner(self, event, k):
+            return w.results[k]
+        self.root.addHandler(handler('inner', channel='*')(inner))
+
+        def innergen(self, event, k):
+            yield None
+            yield w.results[k]
+        self.root.addHandler(handler('innergen', channel='*')(innergen))
         self.root.addHandler(handler('exception', channel='*')(on_exc))
         for k, beh in enumerate(w.behaviours):
             if beh[0] == 'nohandler':
@@ -357,6 +366,12 @@ class Tree:
                 for _ in range(beh[2]):
                     yield None
                 yield w.results[k]
+        elif beh[0] in ('fwd', 'fwdgen'):
+            # the handler hands the work on: it returns the Value of an event it fires (`return self.fire(...)`); the result of
+            # the call is what that event's handler returns
+            def fn(self, event, *a, **kw):
+                enter(event, a, kw)
+                return self.fire(Event.create('inner' if beh[0] == 'fwd' else 'innergen', k))
         else:
             def fn(self, event, *a, **kw):
                 enter(event, a, kw)
@@ -376,7 +391,7 @@ class BaseWorld:
         self.events_spec = events
         self.names = [e.get('name', 't%d' % k) for k, e in enumerate(events)]
         self.behaviours = [e['beh'] for e in events]
-        self.results = [expand(e['beh'][1]) if e['beh'][0] in ('ret', 'gen') else None for e in events]
+        self.results = [expand(e['beh'][1]) if e['beh'][0] in ('ret', 'gen', 'fwd', 'fwdgen') else None for e in events]
         self.expect = self.results      # what the sender's waiting handler must receive
         self.args = [expand(e.get('a', [])) for e in events]
         self.kwargs = [expand(e.get('kw', {})) for e in events]
@@ -548,6 +563,8 @@ def stressor(spec, k, phase='result'):
     a, kw = e.get('a', []), e.get('kw', {})
     if phase == 'result' and e['beh'][0] == 'raise':
         return 'handler-raises'
+    if phase == 'result' and e['beh'][0] == 'fwdgen':
+        return 'handed-on-to-a-generator-handler'
     if contains_delim([a, kw]):
         return 'delimiter-in-arguments'
     if phase == 'result' and e['beh'][0] in ('ret', 'gen') and contains_delim(e['beh'][1]):
@@ -802,8 +819,11 @@ ARGS = [
 BEHS = [
     ['ret', 'R'], ['ret', 0], ['ret', False], ['ret', ''], ['ret', []], ['ret', [1, 'a', None]], ['ret', {'a': {'b': 1}}],
     ['ret', 'x~~~y'], ['ret', 'r\udce9 \U0001f600'], ['ret', {'value': 1, 'name': 'n'}], ['ret', {'$pad': 5000}], ['ret', {'$pad': 10000}], ['ret', {'$pad': 70000}],
-    ['none', None], ['raise', None], ['gen', 'G', 1], ['gen', {'$pad': 5000}, 2], ['nohandler', None],
+    ['none', None], ['raise', None], ['gen', 'G', 1], ['gen', {'$pad': 5000}, 2], ['nohandler', None], ['fwd', 'F'],
 ]
+# (not in the alphabet: ['fwdgen', ..] - handing on to an event whose handler is a generator: when the call's own handlers are done
+# the handed-on event is not, the value is unresolved (None) for a local caller resumed at that moment as well; the statement does
+# not say that a remote caller gets more than that)
 FLAGS = [[s, f, n] for s in (0, 1) for f in (0, 1) for n in (0, 1)]
 
 
